@@ -570,6 +570,21 @@ class _SetOperation(Selectable, Term):  # type:ignore[misc]
         self._offset = cast(ValueWrapper, self.wrap_constant(offset))
 
     @builder
+    def replace_table(  # type:ignore[return,override]
+        self, current_table: Table | None, new_table: Table | None
+    ) -> "Self":
+        self.base_query = self.base_query.replace_table(current_table, new_table)
+        self._set_operation = [
+            (operation, query.replace_table(current_table, new_table))
+            for operation, query in self._set_operation
+        ]
+        self._orderbys = [
+            (field.replace_table(current_table, new_table), order) for field, order in self._orderbys
+        ]
+        self._limit = self._limit.replace_table(current_table, new_table) if self._limit else None
+        self._offset = self._offset.replace_table(current_table, new_table) if self._offset else None
+
+    @builder
     def union(self, other: Selectable) -> "Self":  # type:ignore[return]
         self._set_operation.append((SetOperation.union, other))  # type:ignore[arg-type]
 
